@@ -54,3 +54,7 @@ check("C13", "Hypothesis (rule, preceding items, item under test with three cond
       "The item under test carries a field-suffix marker; its rule / detection-item / field-name groups are drawn from all built-in condition types in list form (and/or, negation), map form and expression form, including empty groups with non-default flags, after 0-2 preceding items that set state and rename fields. Expected targets (item fields, field-reference values, fields-list entries) come from an evaluator of the documented meaning on the source document and on a model of the preceding items.",
       "Trusted: the evaluator in vf/props/c13.py; values without modifiers except fieldref; behaviour for unset built-in attributes not asserted.",
       "DESIGN.md section 3, C13")
+check("C12", "Hypothesis (rule, chain of 1-3 transformations with scopes); reference rewrite engine + truth-table oracle on decoded queries; identity instances by string equality",
+      "A rewrite engine in /verif applies the documented meaning of 20 transformation types (with field include/exclude and log-source scopes, nesting, chains up to 3) to the reference items of the source document; the decoded query must denote the rewritten formula for every truth assignment and the fields list must match; each transformation's identity instance must leave the pipeline-free query byte-identical.",
+      "Trusted: the rewrite engine as statement of the documented meaning; undocumented combinations excluded (see assumptions in the evidence).",
+      "DESIGN.md section 3, C12")
